@@ -257,7 +257,7 @@ def shards(tier):
     out += [("L3", i) for i in range(NCAT)]
     out += [("L3pair", i) for i in range(NCAT)]
     out += [("L3remove", i) for i in range(NCAT)]
-    out += [("optimised", 0), ("windows", 0)]
+    out += [("optimised", 0), ("windows", 0)] + [("idents", i) for i in range(4)]
     out += [("L4", s) for s in seq_shards(spaces.SIGMA_DOC, 5 if tier == "quick" else 6)]
     out += [("big", n, v) for n in (bigdocs.SIZES_QUICK if tier == "quick" else bigdocs.SIZES_THOROUGH) for v in (0, 1)]
     return out
@@ -444,6 +444,14 @@ def run_shard(shard, tier, acc):
         return check_optimised_interpreter(acc)
     if kind == "windows":
         return check_window_boundaries(acc)
+    if kind == "idents":
+        # words the implementation uses for itself, as entry type / key / field key / string name / bare value
+        for w in spaces.implementation_identifiers()[shard[1] :: 4]:
+            if w.lower() in ("comment", "preamble", "string"):
+                continue
+            check_doc(f"@{w}{{{w}, {w} = {w}, x{w} = {{{w}}}}}", [("entry", w.lower(), w, ((w, w), ("x" + w, "{" + w + "}")))], acc, "idents")
+            check_doc(f'@string{{{w} = "{w}"}}\n@{w.upper()} {{k, f = {w}}}', [("string", w, f'"{w}"'), ("entry", w.lower(), "k", (("f", w),))], acc, "idents")
+        return
     if kind == "L1":
         for toks in seq_iter(spaces.SIGMA_VAL, shard[1]):
             v = "".join(toks)
